@@ -55,6 +55,14 @@ func PropagateChangesFromUpstreamRepository(downstreamRepo, upstreamRepo *gitint
 		if err != nil {
 			return err
 		}
+		if detail.GetUpstreamPath() != "" {
+			// Only the subtree at the upstream path is propagated, so
+			// that is what the downstream path must be compared with
+			upstreamTreeID, err = upstreamRepo.GetPathIDInTree(upstreamTreeID, detail.GetUpstreamPath())
+			if err != nil {
+				return err
+			}
+		}
 
 		if !currentPathTreeID.IsZero() && currentPathTreeID.Equal(upstreamTreeID.Bytes()) {
 			// Nothing to do
